@@ -11,7 +11,8 @@ c  balance: Wallet.get_balance = total of the unspent outputs at the head paying
    (annotated or unused), for a symbolic assignment of keys to the wallet.
 d  atomic save: the real save_wallet on an in-memory file system, crash before any file operation
    (symbolic), both buffering behaviours: wallet.json is always the complete old or the complete new
-   wallet, never a prefix or an empty file.
+   wallet, never a prefix or an empty file; and the program's own start-up path
+   (scripts.utils.open_or_init_wallet) run on what the crash left behind loads exactly one of the two.
 """
 from __future__ import annotations
 
@@ -235,17 +236,26 @@ def fidelity(twin: bool = False, real: bool = False):
     return check_fidelity, {"m0": 1, "m1": 2, "m2": 1, "m3": 0, "swap": True}
 
 
-def balance(twin: bool = False, real: bool = False):
+def balance(extra: bool = False, ko_fixed: int = -1, twin: bool = False, real: bool = False):
+    """extra: the head is one block further; that block's reward and its one transfer each pay ONE key in TWO outputs
+    (payment and change to the same address), the key being a symbolic choice."""
     from symlib.symblock import World
+    from symlib.world import tok, TX
     import skepticoin.wallet  # noqa
     W = World(real=real, served_head="P")
     wl = _wl()
 
-    def check_balance(m0: int, m1: int, m2: int, m3: int, v0: int, v1: int, v2: int, v3: int) -> bool:
+    def check_balance(m0: int, m1: int, m2: int, m3: int, v0: int, v1: int, v2: int, v3: int, s: int = 1, ko: int = 0, kc: int = 0) -> bool:
         """
         post: _
         """
         members = [m0, m1, m2, m3]
+        if not extra and not (s == 1 and ko == 0 and kc == 0):
+            return True
+        if not (0 <= ko <= 3 and 0 <= kc <= 3 and 1 <= s):
+            return True
+        if ko_fixed >= 0 and not (ko == ko_fixed and kc == (ko_fixed + 2) % 4):
+            return True
         for m in members:
             if not (0 <= m <= 2):
                 return True
@@ -255,6 +265,12 @@ def balance(twin: bool = False, real: bool = False):
         if not real:
             W._install_crypto()
         cs = W.state([v0, v1, v2, v3])
+        if extra:
+            if not (s < v0):
+                return True
+            cbq = W.env.coinbase(W.h, [W.dt.Output(1, W.keys[kc]), W.dt.Output(2, W.keys[kc])], tok(TX, 25))
+            q = W.make_tx(tok(TX, 26), [(0, 0, 0)], [(s, ko), (v0 - s, ko)], [v0, v1, v2, v3], cbq.hash(), None)
+            cs = cs.add_block_no_validation(W.candidate(cs, [cbq, q], 3000))
         kp, unused, ann = {}, [], {}
         for i, m in enumerate(members):
             if m == 0:
@@ -275,12 +291,15 @@ def balance(twin: bool = False, real: bool = False):
                     total += o.value
         return got == total
 
-    return check_balance, {"m0": 2, "m1": 1, "m2": 0, "m3": 1, "v0": 5, "v1": 6, "v2": 7, "v3": 8}
+    return check_balance, {"m0": 2, "m1": 1, "m2": 0, "m3": 1, "v0": 5, "v1": 6, "v2": 7, "v3": 8, "s": 1, "ko": max(ko_fixed, 0), "kc": (max(ko_fixed, 0) + 2) % 4 if extra else 0}
 
 
 def atomic_save(twin: bool = False, real: bool = False):
     wl = _wl()
     from symlib.stubs.fs import MemFS, Crash, patched
+    from symlib.prelude import import_repo_networking
+    import_repo_networking()
+    import skepticoin.scripts.utils as utils
 
     def texts():
         old = _mk(wl, [2, 1, 0, 0], False)
@@ -367,7 +386,20 @@ def atomic_save(twin: bool = False, real: bool = False):
             cur = open(path).read() if os.path.exists(path) else None
             if cur is None:
                 return not had_old
-            return cur == tn or (had_old and cur == to)
+            if not (cur == tn or (had_old and cur == to)):
+                return False
+            # restart through the program's own start-up path, in a second child (it changes directory)
+            def child2():
+                os.chdir(d)
+                try:
+                    w = utils.open_or_init_wallet()
+                    os._exit(0 if _view(w) in (_view(old), _view(new)) else 7)
+                except Exception:
+                    os._exit(8)
+            p2 = mp.get_context("fork").Process(target=child2)
+            p2.start()
+            p2.join(60)
+            return p2.exitcode == 0
         finally:
             shutil.rmtree(d, ignore_errors=True)
 
@@ -395,10 +427,24 @@ def atomic_save(twin: bool = False, real: bool = False):
             return not crashed
         cur = fs.files.get("wallet.json")
         if not crashed:
-            return cur == tn and "wallet.json.new" not in fs.files
-        if cur is None:
+            if not (cur == tn and "wallet.json.new" not in fs.files):
+                return False
+        elif cur is None:
             return not had_old
-        return cur == tn or (had_old and cur == to)
+        elif not (cur == tn or (had_old and cur == to)):
+            return False
+        # restart: the program's own start-up path (scripts.utils.open_or_init_wallet) on what the crash left behind must
+        # come up with the complete previous or the complete new wallet
+        fs.crash_at = -1
+        with patched(utils, fs):
+            try:
+                w = utils.open_or_init_wallet()
+            except Exception:
+                return False
+        if _view(w) != _view(new) and not (had_old and crashed and _view(w) == _view(old)):
+            return False
+        cur2 = fs.files.get("wallet.json")
+        return cur2 == tn or (had_old and cur2 == to)
 
     return check_atomic_save, {"crash_at": TOTAL + 4, "eager": True, "had_old": True, "stale_temp": False}
 
@@ -412,6 +458,10 @@ def obligations(tier: str, known: List[str]) -> List[Ob]:
     obs.append(twin_of(obs[-1], timeout=300))
     obs.append(Ob("b.generate-keys", C_ONCE, "generate", {}, timeout=T))
     obs.append(Ob("c.balance", C_BAL, "balance", {}, timeout=T))
+    for ko in range(4):
+        obs.append(Ob("c.balance[one-key-paid-twice-in-one-transaction,key=%d]" % ko, C_BAL, "balance", {"extra": True, "ko_fixed": ko}, timeout=T))
+    if tier == "thorough":
+        obs.append(Ob("c.balance[one-key-paid-twice-in-one-transaction,any keys]", C_BAL, "balance", {"extra": True}, timeout=T))
     obs.append(Ob("d.atomic-save", C_ATOM, "atomic_save", {}, timeout=T))
     obs.append(twin_of(obs[-1], timeout=300))
     obs.append(Ob("finding[restore-after-exhausted-handout]", C_ONCE, "handouts", {"exclude_known": False, "only_known": True},
